@@ -542,6 +542,17 @@ func TestC12Restart(t *testing.T) {
 		if ran != 1 {
 			fail("the restarting feature ran %d times (harness expectation 1); err=%v output=%q", ran, err, peer.Conn.Output())
 		}
+		sentHeaders := bytes.Count(peer.Conn.Output(), []byte("<stream:stream"))
+		if recv {
+			// the receiving side answers an accepted header with its own: a rejected
+			// second header leaves exactly one header of ours on the wire
+			if changed && sentHeaders != 1 {
+				fail("the header after the restart carries changed addresses (from=%q to=%q; established from=%q to=%q) but the library answered it with a stream header of its own (%d headers sent)\noutput: %q", from2, to2, them, us, sentHeaders, peer.Conn.Output())
+			}
+			if !changed && sentHeaders != 2 {
+				fail("the header after the restart is consistent but was not answered (%d headers sent, err=%v)\noutput: %q", sentHeaders, err, peer.Conn.Output())
+			}
+		}
 		if changed {
 			if err == nil {
 				fail("the header after the restart carries addresses (from=%q to=%q) that differ from the established ones (from=%q to=%q) but was accepted; state %v", from2, to2, them, us, s.State())
